@@ -251,6 +251,61 @@ handlers that ran) of the calls that failed, as reported by the returned `multiE
 def failedCalls (calls : List Call) (errs : List Nat) : List Nat :=
   (List.range (calls.filter fun c => c.pat.isSome).length).filter fun i => errs.contains i
 
+/-! ### the tables probed on the real code (`harness facts C14`)
+
+The same finite tables computed by the model; `Props/C14.lean` proves them equal to the ones the
+real options and lookups produce. -/
+
+/-- the type universe of the probe: the declared constants of each kind, the empty type, an
+unknown type and a case variant -/
+def probeTypes : Kind → List String
+  | .top => [""]
+  | .iq => ["get", "set", "result", "error", "", "xx", "GET"]
+  | .msg => ["normal", "chat", "error", "groupchat", "headline", "", "xx", "Chat"]
+  | .pres => ["", "unavailable", "subscribe", "probe", "error", "xx", "Unavailable"]
+
+def probeName : Name := ⟨"urn:a", "x"⟩
+
+/-- is the bare wildcard of type `t1` found by the lookup of type `t2`; is the exact name of
+type `t1`; is the same name accepted for `t2` after `t1` -/
+structure TypeRow where
+  kind : Kind
+  t1 : String
+  t2 : String
+  wild : Bool
+  exact : Bool
+  second : Bool
+  deriving DecidableEq, Repr
+
+def typeRow (k : Kind) (t1 t2 : String) : TypeRow :=
+  { kind := k, t1 := t1, t2 := t2,
+    wild := (lookup [⟨k, t1, ⟨"", ""⟩⟩] k t2 probeName).isSome,
+    exact := (lookup [⟨k, t1, probeName⟩] k t2 probeName).isSome,
+    second := ((register [] ⟨k, t1, probeName⟩ false).bind fun t => register t ⟨k, t2, probeName⟩ false).isSome }
+
+def typeTableModel : List TypeRow :=
+  [Kind.iq, Kind.msg, Kind.pres].flatMap fun k =>
+    (probeTypes k).flatMap fun t1 => (probeTypes k).map fun t2 => typeRow k t1 t2
+
+structure CascadeRow where
+  kind : Kind
+  typ : String
+  mask : Nat
+  hit : Option Pattern
+  deriving DecidableEq, Repr
+
+/-- the table holding the shapes of `probeName` selected by `mask` (1 exact, 2 local name
+only, 4 namespace only, 8 wildcard), registered in descending order -/
+def maskTable (k : Kind) (typ : String) (mask : Nat) : Table :=
+  (if mask.testBit 3 then [(⟨k, typ, ⟨"", ""⟩⟩ : Pattern)] else []) ++
+  (if mask.testBit 2 then [⟨k, typ, ⟨probeName.space, ""⟩⟩] else []) ++
+  (if mask.testBit 1 then [⟨k, typ, ⟨"", probeName.loc⟩⟩] else []) ++
+  (if mask.testBit 0 then [⟨k, typ, probeName⟩] else [])
+
+def cascadeTableModel : List CascadeRow :=
+  [(Kind.top, "", 8), (Kind.iq, "set", 16), (Kind.msg, "chat", 16), (Kind.pres, "unavailable", 16)].flatMap
+    fun (k, typ, n) => (List.range n).map fun mask => ⟨k, typ, mask, lookup (maskTable k typ mask) k typ probeName⟩
+
 /-! ### histories on one multiplexer
 
 Options are exported functions and may be applied to a `ServeMux` after `New`; lookups and
